@@ -276,3 +276,7 @@ def relpath_oracle(c, line, out):
         ne = lambda l: [x for x in l if x != ""]
         if ups > len(outdir_elems) or ne(outdir_elems[:len(outdir_elems) - ups]) + rest != ne(basic.split("/")):
             c.oracle_fail(line, "runtime library location outside the output directory does not resolve to --basicPkgPath: " + rel, line)
+        elif outdir_elems[:3] != basic.split("/")[:3] or len(outdir_elems) < 3:
+            # "github.com / user / repo": never write into a directory that belongs to another repository
+            c.oracle_fail(line, "runtime library would be written outside the output directory although --pkgPath and --basicPkgPath "
+                          "are in different repositories: " + rel, line)
